@@ -19,6 +19,7 @@ func init() {
 	rt.Register("C19_par1_fields", VerifHarness_C19_par1_fields)
 	rt.Register("C15_par1_names", VerifHarness_C15_par1_names)
 	rt.Register("C18_par1_faults", VerifHarness_C18_par1_faults)
+	rt.Register("C18_par1_create_faults", VerifHarness_C18_par1_create_faults)
 }
 
 const (
@@ -528,4 +529,42 @@ func VerifHarness_C18_par1_faults() {
 	s.fs.failRead, s.fs.failWrite, s.fs.nRead, s.fs.nWrite = 0, 0, 0, 0
 	_, err2 := repair(s.fs, p1Index, RepairOptions{})
 	rt.Assert(err2 == nil && s.intact(), "re-run after the fault restores the file")
+}
+
+// PAR1 Create and Verify: a fault at each read or write in turn.
+func VerifHarness_C18_par1_create_faults() {
+	useReedSolomonStub()
+	mk := func() *symFS {
+		fs := newSymFS()
+		fs.put(p1Dir+"/a", []byte{1, 2, 3})
+		fs.put(p1Dir+"/b", []byte{4})
+		return fs
+	}
+	paths := []string{p1Dir + "/a", p1Dir + "/b"}
+	ref := mk()
+	rt.Assert(create(ref, p1Index, paths, CreateOptions{NumParityFiles: 2}) == nil, "fault-free PAR1 Create succeeds")
+	fs := mk()
+	if rt.Bool("readFault") {
+		fs.failRead = 1 + rt.Choice("read#", 2)
+	} else {
+		fs.failWrite = 1 + rt.Choice("write#", 3)
+		fs.tornLen = []int{-1, 0, 50}[rt.Choice("torn", 3)]
+	}
+	err := create(fs, p1Index, paths, CreateOptions{NumParityFiles: 2})
+	rt.Assert(err != nil, "a failed read or write makes PAR1 Create return an error")
+	rt.Assert(bytesEqual(fs.files[paths[0]], []byte{1, 2, 3}) && bytesEqual(fs.files[paths[1]], []byte{4}), "input files untouched")
+	fs.failRead, fs.failWrite, fs.nRead, fs.nWrite = 0, 0, 0, 0
+	rt.Assert(create(fs, p1Index, paths, CreateOptions{NumParityFiles: 2}) == nil, "re-run after the fault succeeds")
+	for _, w := range ref.writes {
+		rt.Assert(bytesEqual(fs.files[w.path], w.data), "re-run reaches the fault-free final state")
+	}
+	// Verify with a failing read (other than a missing file) reports an error
+	fs.nRead = 0
+	_, verr := verify(fs, p1Index, VerifyOptions{})
+	rt.Assert(verr == nil, "fault-free PAR1 Verify returns a result")
+	n := fs.nRead
+	fs.nRead = 0
+	fs.failRead = 1 + rt.Choice("vread#", n)
+	_, verr = verify(fs, p1Index, VerifyOptions{})
+	rt.Assert(verr != nil, "a failed read makes PAR1 Verify return an error")
 }
